@@ -804,8 +804,9 @@ def _law(name, first, doc):
                 exp = [(k, src, {}, k == "b") for k, src, _, _ in exp]
             out = self.common({}, result, self_, exp, index="same")
             if name == "reset_after_set":
-                # the law is stated for the attributes an Index can carry; the Column-only ones take their defaults
-                for p in ("required", "regex"):
+                # (`regex`: a regex column is not a column to put into the index; `required` is part of the law: an optional column
+                # that went through the index comes back required - a known finding)
+                for p in ("regex",):
                     out.pop(f"touched.{p}", None)
                 out.pop("columns.keys_and_order", None) if False else None
             return {f"inverse.{name}.{k}": v for k, v in out.items()}
